@@ -89,6 +89,7 @@ pub fn has_bool_test(q: &Query) -> bool {
 }
 
 /// an IN list with an element containing a CASE (known finding `in-list-case-element`)
+#[allow(dead_code)]
 pub fn in_list_case_element(q: &Query) -> bool {
     let mut found = false;
     refsql::visit_exprs(q, &mut |e| {
@@ -383,6 +384,7 @@ pub fn has_window(q: &Query) -> bool {
 }
 
 /// LEFT / RIGHT join whose ON has a conjunct `<literal> = <column>` (known finding `outer-join-on-literal-eq-column`)
+#[allow(dead_code)]
 pub fn outer_join_literal_eq_column(q: &Query) -> bool {
     fn conj(e: &Expr, found: &mut bool) {
         match e {
@@ -639,6 +641,7 @@ pub fn gen_config(tier: Tier) -> GenConfig {
 }
 
 /// the top-level select has an unaliased item containing a quantified comparison
+#[allow(dead_code)]
 pub fn unaliased_quantified(q: &Query) -> bool {
     fn sel_has(e: &SetExpr) -> bool {
         match e {
@@ -945,9 +948,8 @@ pub fn describe(case: &SqlCase, sql: &str) -> String {
 
 /// Shape-keyed signatures of the open C01 known findings (excluded by construction; also used by C02 / C03).
 pub fn shape_signature(q: &Query) -> Option<String> {
-    if unaliased_quantified(q) {
-        return Some("unaliased-select-list-quantified".into());
-    }
+    // `unaliased-select-list-quantified` and `in-list-case-element` are FIXED in /repo (commits 71c325dd, e36bd2dc):
+    // no exclusion any more, their cases are plain regressions
     if in_subquery_outside_conjunct(q) {
         return Some("in-subquery-outside-conjunct".into());
     }
@@ -959,9 +961,6 @@ pub fn shape_signature(q: &Query) -> Option<String> {
     }
     if has_intersect_except_all(q) {
         return Some("intersect-except-all".into());
-    }
-    if in_list_case_element(q) {
-        return Some("in-list-case-element".into());
     }
     if join_mixed_null_equality(q) {
         return Some("join-mixed-null-equality".into());
@@ -975,9 +974,7 @@ pub fn shape_signature(q: &Query) -> Option<String> {
     if outer_join_filter_on_nullable_key(q) {
         return Some("outer-join-filter-on-nullable-side-join-key".into());
     }
-    if outer_join_literal_eq_column(q) {
-        return Some("outer-join-on-literal-eq-column".into());
-    }
+    // `outer-join-on-literal-eq-column` is FIXED in /repo (commit 903ba92): no exclusion any more
     if filter_above_empty_grouping_set(q) {
         return Some("filter-below-empty-grouping-set".into());
     }
